@@ -5,12 +5,15 @@ import itertools
 
 import enc
 import gen
+import hkspy
 from props.common import load_def, mk_dfa, outcome
 
 RULE = ("random pairs of valid DFAs over a common alphabet (1-6 states, partial/complete mixes, 7 name pools), "
         "plus built pairs: a DFA vs a renamed copy with one deep final flag flipped ('differ on one long word'), "
         "vs itself completed with a trap, vs its sub/superset; the ten comparison answers and isempty/isfinite are "
-        "compared exactly with the proved model. distinct = distinct canonical (A, B); non-trivial = both "
+        "compared exactly with the proved model; == is additionally compared with the mirror model of the code's "
+        "Hopcroft-Karp/union-find loop (two symbol orders and tie-breaks), and the sequence of union calls observed by a "
+        "spy on networkx's UnionFind is compared with the mirror model run under the observed schedule. distinct = distinct canonical (A, B); non-trivial = both "
         "languages non-empty and the pair is not literally identical")
 
 NAMES = ["eq", "ne", "le", "lt", "ge", "gt", "issubset", "issuperset", "isdisjoint"]
@@ -32,13 +35,56 @@ def confirm(a, b, name, sy, word):
     return {"word": s, "A_accepts": a.accepts_input(s), "B_accepts": b.accepts_input(s)}
 
 
+def hk_trace_prepare(a, b, ta, tb, sy):
+    """Run a == b under the spy; return (wire item for the mirror model under the observed schedule, judge)."""
+    if a.input_symbols != b.input_symbols:
+        return None, None
+    sta, stb = enc.Renum(enc.dfa_names(a)), enc.Renum(enc.dfa_names(b))
+
+    def el(e):
+        q, idx = e
+        return [idx, [] if q is None else [(sta, stb)[idx](q)]]
+
+    got, rec = hkspy.observe_eq(a, b)
+    order = [sy(c) for c in a.input_symbols]
+    ties = [[el(x), el(y)] for x, y in rec.first_wins]
+    calls = [[el(x), el(y)] for x, y in rec.calls]
+
+    def judge(ctx, answer, eq_outcome):
+        m_res, m_log = answer
+        m_res = enc.dec_res(m_res)
+        want = ("ok", m_res[1] == 1) if m_res[0] == "ok" else ("err", m_res[1])
+        out = []
+        if got[:2] != want or got[:2] != eq_outcome[:2]:
+            out.append(f"eq under the observed schedule: impl {got} (unobserved run {eq_outcome}) mirror model {want}")
+        if calls != m_log:
+            out.append(f"union-find calls differ from the mirror model's: impl {calls} model {m_log}")
+        ctx.tally("hk_trace_compared")
+        ctx.tally(f"hk_unions_{min(len(calls), 6)}{'+' if len(calls) >= 6 else ''}")
+        return out
+
+    return (6, 4, enc.tree([ta, tb, order, ties])), judge
+
+
 def check_pair(ctx, adef, bdef, tag):
     a, b = mk_dfa(adef), mk_dfa(bdef)
     sy = enc.SymMap(a.input_symbols | b.input_symbols)
     ta, tb = enc.enc_dfa(a, None, sy), enc.enc_dfa(b, None, sy)
-    ans, cmp_ = ctx.driver.batch([(6, 1, enc.tree([ta, tb])), (0, 1, enc.tree([ta, tb]))])
+    trace_item, trace_judge = hk_trace_prepare(a, b, ta, tb, sy)
+    ans, cmp_, hk, *trace_ans = ctx.driver.batch([(6, 1, enc.tree([ta, tb])), (0, 1, enc.tree([ta, tb])),
+                                                  (6, 3, enc.tree([ta, tb]))] + ([trace_item] if trace_item else []))
     got = impl_answers(a, b)
     problems = []
+    # == against the mirror model of DFA.__eq__ (Hopcroft-Karp as coded), under two schedules
+    for sched, m in zip(("record order, first root wins ties", "reversed order, second root wins ties"), hk):
+        m = enc.dec_res(m)
+        want = ("ok", m[1] == 1) if m[0] == "ok" else ("err", m[1])
+        if got[0][:2] != want:
+            problems.append(f"eq: impl {got[0]} Hopcroft-Karp mirror model ({sched}) {want}")
+    ctx.tally("hk_mirror_compared")
+    # the run of the loop itself: the union calls seen by a spy on networkx's UnionFind against the mirror model
+    # driven by the schedule the implementation actually used (symbol iteration order, tie-breaks)
+    trace_problems = trace_judge(ctx, trace_ans[0], got[0]) if trace_item else []
     for name, g, m in zip(NAMES, got, ans):
         m = enc.dec_res(m)
         want = ("ok", m[1] == 1) if m[0] == "ok" else ("err", m[1])
@@ -51,7 +97,13 @@ def check_pair(ctx, adef, bdef, tag):
     nontrivial = not a.isempty() and not b.isempty() and enc.tree(ta) != enc.tree(tb)
     ctx.case((enc.tree(ta), enc.tree(tb)), nontrivial,
              sample={"A": repr(adef), "B": repr(bdef), "answers": dict(zip(NAMES, [g[1] for g in got]))})
-    if problems:
+    if trace_problems and not problems:
+        # same answers, different run: the mirror model no longer describes the code's loop (C06/hk_trace)
+        ctx.violation("C06/hk_trace: the union-find run of DFA.__eq__ differs from the mirror model: " + "; ".join(trace_problems),
+                      {"kind": "pair", "A": repr(adef), "B": repr(bdef), "problems": trace_problems, "tag": tag},
+                      confirmed=False)
+    elif problems:
+        problems += trace_problems
         ctx.violation("DFA comparison disagrees with the language statement: " + "; ".join(problems),
                       {"kind": "pair", "A": repr(adef), "B": repr(bdef), "problems": problems,
                        "distinguishing_word": confirm(a, b, None, sy, word), "tag": tag})
